@@ -15,17 +15,17 @@ RULE = ('kinds: cf-std (CF "unit since ref" on standard/gregorian/proleptic/abse
         'colon, unpadded month/day) plus rejected spellings (T separator, fractional seconds) and invalid fields; values on the '
         '1/64-unit grid (binary64-exact), offsets up to +-300 years, float64/int32 storage; bounds none / time_bounds variable / '
         'approximate midpoints; date2num and time2idx round trips); cf-fixed (noleap, 365_day, all_leap, 366_day: whole-day values '
-        'with Jan-1 midnight reference = proved sub-domain, and the four defect regions: time of day, seconds, reference not Jan 1 '
-        'incl. exact-integer-year sums, Feb 29 of a common year); tau0/tau1; tflag (valid rows incl. leap days, year ends, day/year '
+        'with Jan-1 midnight reference, sub-day values and references with time of day / zone, seconds, references that are not '
+        'Jan 1 incl. whole-year offsets, values around Feb 29 of common and leap years, years/weeks units; bounds none / variable / '
+        'midpoints); tau0/tau1; tflag (valid rows incl. leap days, year ends, day/year '
         'crossings; malformed rows: day 0/366/367+, 240000, minute/second >= 60, negative, -635, year 0 / >= 10000; bounds with and '
         'without TSTEP); sdate (SDATE/STIME/TSTEP attributes incl. SDATE < 1, TSTEP 0, >= 100 h, negative, malformed); synth '
         '(add_time_variables with / without TFLAG, then decoded, bounds too); updatetflag (IOAPI file from attributes: TFLAG rows '
         'written then decoded). Non-trivial = decoding returned at least one instant different from the reference instant.')
 TRUSTED = ['binary64 arithmetic of the library is exact on the generated 1/64-unit grid; the TFLAG float expression '
            'jjj + (h + m/60 + s/3600)/24 is modelled in exact arithmetic (timedelta rounds to microseconds; error < 1e-8 s)',
-           'fractional-year path: modelled in exact rational arithmetic; offsets limited to 120 years (50 when addyears != 0) so that '
-           'binary64 error stays below the half-microsecond rounding of timedelta; where fracyear is an exact integer and addyears != 0 '
-           'the model accepts either neighbour (rounding band)',
+           '365/366-day branch (repaired): integer microsecond arithmetic, modelled exactly; timedelta(unit=float(x)) is exact on the '
+           '1/64-unit grid as in the standard branch',
            '_parse_ref_date modelled as a finite table of spellings (strptime itself is not re-implemented)',
            'netCDF4.date2num modelled as exact division from the reference instant that _parse_ref_date yields (the repaired date2num '
            'normalises the units string first); np.interp + round modelled on Z (ascending coordinates only)',
@@ -183,7 +183,9 @@ def gen_cf_fixed(rng, tier):
         sub = 'dom'
         unit = rng.choice(['days', 'days', 'hours', 'minutes'])
         r = _ref(rng, jan1=True, midnight=True, malformed=0.0)
-        vals = _vals(rng, unit, 120, whole_days=True)
+        if rng.random() < 0.2:
+            bm = 'mid'
+        vals = _vals(rng, unit, 120, whole_days=True, uniform=(bm == 'mid'))
     elif st < 0.62:
         sub = 'tod'
         unit = rng.choice(['days', 'hours', 'minutes'])
@@ -739,19 +741,20 @@ def shrink(case):
         yield c
 
 
-LEVEL_TEXT = ('Theorems (Props/C12.v, 19, all closed under the global context) over Model/Times.v on a proved proleptic-Gregorian '
-              'calendar (Base/Calendar.v: civil date <-> day number and YYYYJJJ/HHMMSS <-> seconds are mutual inverses for all years, '
-              'lia + a 146097-day era sweep): full strength for CF standard calendars (every unit, accepted spelling, zone, series length: '
-              'C12_cf_standard_correct), TFLAG rows incl. bounds (C12_tflag_correct, C12_tflag_bounds_correct), SDATE/STIME/TSTEP '
-              '(C12_sdate_tstep_correct), updatetflag rows (C12_updatetflag_roundtrip), time variable synthesised from TFLAG and from '
-              'the attributes for every step incl. >= 100 h (C12_synth_matches_flags, C12_synth_matches_attrs, C12_synth_bounds_edge), '
-              'date2num round trip for every accepted reference spelling (C12_date2num_roundtrip), time2idx identity on ascending '
-              'coordinates (C12_time2idx_identity); the last three hold for the code repaired by fixes/C12-add-time-variable-tstep.patch '
-              'and fixes/C12-date2num-refdate.patch. _partial + _refuted remain for the 365/366-day calendars (right only for Jan-1 '
-              'midnight references and whole-day values; four vm_compute witnesses = known findings, the branch needs a rewrite). '
-              'Tie H: getTimes / date2num / time2idx / add_time_variables / updatetflag of the library vs the model on every generated case, '
-              'plus cftime and integer datetime arithmetic as independent oracles.')
+LEVEL_TEXT = ('Theorems (Props/C12.v, 18, all closed under the global context) over Model/Times.v on a proved calendar library '
+              '(Base/Calendar.v: civil date <-> day number for the proleptic Gregorian, noleap and all_leap calendars and '
+              'YYYYJJJ/HHMMSS <-> seconds are mutual inverses for all years, lia + a 146097-day era sweep). Every clause is full strength: '
+              'CF standard calendars (every unit, accepted spelling, zone, series length: C12_cf_standard_correct), 365/366-day calendars '
+              '(every unit, reference date, time of day, zone: C12_cf_fixed_calendar, C12_fixed_fields_denote_instant, '
+              'C12_cf_fixed_matches_spec, C12_cf_fixed_returns; Feb 29 of a common year raises), TFLAG rows incl. bounds '
+              '(C12_tflag_correct, C12_tflag_bounds_correct), SDATE/STIME/TSTEP (C12_sdate_tstep_correct), updatetflag rows '
+              '(C12_updatetflag_roundtrip), synthesised time variable (C12_synth_matches_flags, C12_synth_matches_attrs, '
+              'C12_synth_bounds_edge), date2num round trip (C12_date2num_roundtrip), time2idx identity (C12_time2idx_identity). '
+              'No _partial/_refuted theorem is left: the defects found were repaired (fixes/C12-*.patch) and the model describes the '
+              'repaired code. Tie H: getTimes / date2num / time2idx / add_time_variables / updatetflag of the library vs the model on every '
+              'generated case, plus cftime and integer datetime arithmetic as independent oracles.')
 LEVEL_NOTE = ('Trusted: Coq kernel + vm_compute; the harness; binary64 exactness of the library on the 1/64-unit grid and of the TFLAG '
               'fractional-day expression (checked by F on every case, not proved); _parse_ref_date as a table of spellings; cftime as oracle. '
-              'Not modelled: tau0 beyond hours-since-1985 decoding, TSTEP < 0 in add_time_variable, descending time2idx, 360_day/julian.')
-TECHNIQUE = 'Coq proof (calendar inverses by lia + finite era sweep, induction over time series) + vm_compute refutation witnesses + differential correspondence'
+              'Not modelled: tau0 beyond hours-since-1985 decoding, TSTEP < 0 in add_time_variable, descending time2idx, 360_day/julian; '
+              'date2num for 365/366-day calendars is checked by the cftime oracle only.')
+TECHNIQUE = 'Coq proof (calendar inverses by lia + finite era sweep, induction over time series) + differential correspondence'
